@@ -78,9 +78,9 @@ func (r *Run) atomicStore(p Ptr, t types.Type, v Value, blind bool) {
 	if blind && r.monitor && p.Obj != nil && !p.Obj.Owned && !r.inPrefix() &&
 		r.atomicLoaded[lockKey{p.Obj, p.Off}] && !r.anyLockHeld() {
 		r.flush()
-		var vec []uint64
-		if r.sol.CheckSat() == Sat {
-			vec, _ = r.model()
+		vec, ok := r.witness("shared-write")
+		if !ok {
+			return
 		}
 		r.addFinding("shared-write", "lost update: atomic load then plain atomic store of shared state, without a lock or compare-and-swap", p.String(), vec)
 	}
